@@ -225,6 +225,34 @@ def specScanWith (lookup : List UInt8 → Nat → Option ZoneKind) (serverSize :
 def specScan (cat : List ZoneCfg) (serverSize : Nat) (msg : Bytes) : Scan :=
   specScanWith (fun qn qc => (specCatalogLookup cat qn qc).map (·.kind)) serverSize msg
 
+/-! ### the response for the verdicts the scan decides alone -/
+
+/-- RCODE (the four header bits) and the upper eight bits of the extended RCODE (OPT TTL) -/
+def verdictRcode : Verdict → Nat × Nat
+  | .formErr => (1, 0)
+  | .badVers => (0, 1)        -- BADVERS = 16
+  | .notImp => (4, 0)
+  | .refused => (5, 0)
+  | .servFailZone => (2, 0)
+  | _ => (0, 0)
+
+/-- The complete response for FORMERR / BADVERS / NOTIMP / REFUSED / SERVFAIL-for-a-zone-not-loaded:
+    request ID and opcode echoed, QR set, RD copied for QUERY only, every other flag bit clear, the
+    RCODE, the question as decoded (uncompressed encoding), and no record except — iff the scan
+    reached an OPT — one OPT: owner root, CLASS = the server's payload size, version 0, the upper
+    extended-RCODE bits, no flags, no options (RFC 1035 §4.1.1, RFC 6891 §6.1.2). -/
+def specErrorResponse (req : Bytes) (serverSize : Nat) (sc : Scan) : List UInt8 :=
+  let x := req.getD 2 0
+  let h2 : UInt8 := 128 ||| (x &&& 120) ||| (if x.toNat / 8 % 16 = 0 then x &&& 1 else 0)
+  let rc := verdictRcode sc.verdict
+  let q : List UInt8 := match sc.question with
+    | none => []
+    | some q => q.qname ++ u16be q.qtype ++ u16be q.qclass
+  let opt : List UInt8 :=
+    if sc.edns then [0, 0, 41] ++ u16be serverSize ++ [UInt8.ofNat rc.2, 0, 0, 0, 0, 0] else []
+  [req.getD 0 0, req.getD 1 0, h2, UInt8.ofNat rc.1, 0, (if sc.question.isSome then 1 else 0), 0, 0, 0, 0, 0,
+   (if sc.edns then 1 else 0)] ++ q ++ opt
+
 /-! ### audits of a response -/
 
 /-- the RDATA of a stored record is well formed as far as embedded (compressible) names go -/
